@@ -26,6 +26,7 @@ def find_simplifier(hlp):
 def run(ctx, report):
     hlp = ctx.mod('expr_helper')
     fn, loop = find_simplifier(hlp)
+    fold_loop = loop
     env = {}
     try:
         env['op_assoc'] = Evaluator({}).ev(hlp.assign_value('op_assoc'))
@@ -254,6 +255,21 @@ def run(ctx, report):
         else:
             R4.violation('mask-shift', 'rewrite:mask-shift:%s' % type(c.ops[0]).__name__, '((A & mask) >> shift) is rewritten to 0 under `%s`: for mask == 2**shift the bit A[shift] survives, '
                          'so the condition must be strict' % u(c), where(hlp, c), witness='expr_simp((A & 0x80000000) >> 31) == 0')
+    # constant shifts: a count >= the width must not be evaluated on unbounded integers
+    sh_br = [n for n in walk_no_nested(fold_loop) if isinstance(n, ast.If) and ("op == '<<'" in u(n.test) or "op == '>>'" in u(n.test) or "op in ['>>', '<<']" in u(n.test))]
+    bounded = any('i2.arg >= i1.get_size()' in u(n.test) or 'i2.arg >= i1.size' in u(n.test) for n in sh_br)
+    # the bounded branch must come before the plain shift branches in the if/elif chain
+    if bounded:
+        R4.ok('shift-fold-bound', sample='a constant shift by count >= width folds to 0 before the shift is computed')
+    else:
+        R4.violation('shift-fold-bound', 'rewrite:shift-fold:unbounded', 'constant folding of << / >> computes i1.arg << i2.arg for any count: the intermediate integer has up to 2**64 bits',
+                     where(hlp, fold_loop), witness='expr_simp(ExprInt64(1) << ExprInt64(2**63)) raises MemoryError')
+    for n in hits:
+        if 'args[1].arg >= args[0].get_size()' in u(n) :
+            R4.ok('mask-shift-bound', sample='(A & m) >> s: s >= width is decided without computing 2**s')
+        else:
+            R4.violation('mask-shift-bound', 'rewrite:mask-shift:unbounded', 'the side condition of ((A & mask) >> shift) evaluates 2**shift for any constant shift', where(hlp, n),
+                         witness='expr_simp((a & 1) >> 0x80000000) takes seconds and gigabytes')
     # A <<< size(A) -> A
     for n in ifs_where(lambda t: "op in ['<<<', '>>>']" in t and 'get_size()' in t):
         if 'args[1].arg == args[0].get_size()' in u(n.test):
@@ -334,6 +350,13 @@ def run(ctx, report):
             else:
                 R4.violation('slice-of-int', 'rewrite:slice-of-int', 'slice of a constant is not (value >> start) & ((1 << (stop-start)) - 1)', where(hlp, n))
         if 'isinstance(e.arg, ExprMem)' in t:
+            mems = [c for c in ast.walk(n) if isinstance(c, ast.Call) and u(c.func) == 'ExprMem']
+            keeps_seg = any(any(k.arg == 'segm' and u(k.value) == 'e.arg.segm' for k in c.keywords) or (len(c.args) >= 3 and u(c.args[2]) == 'e.arg.segm') for c in mems)
+            if not keeps_seg:
+                R4.violation('slice-of-mem:segment', 'rewrite:slice-of-mem:segm', 'narrowing a memory read by a slice rebuilds the ExprMem without the segment selector of the original', where(hlp, n),
+                             witness='expr_simp(es:@32[a][0:8]) == @8[a]')
+            else:
+                R4.ok('slice-of-mem:segment', sample='@n[a][0:k] keeps the segment selector')
             if 'e.start == 0' in t and 'e.arg.size > e.stop' in t and 'e.stop % 8 == 0' in t:
                 R4.ok('slice-of-mem', sample='@n[a][0:k] -> @k[a] only for start == 0, k < n, k a multiple of 8 (little endian)')
             else:
@@ -351,6 +374,8 @@ def run(ctx, report):
 
 
 MUTANTS = [
+    ('slice-mem-noseg', 'miasmx/expression/expression_helper.py', "e = ExprMem(e.arg.arg, size = e.stop, segm = e.arg.segm)", "e = ExprMem(e.arg.arg, size = e.stop)", 'C05.D4'),
+    ('shift-fold-unbounded', 'miasmx/expression/expression_helper.py', "                elif op in ['>>', '<<'] and i2.arg >= i1.get_size():\n                    # every bit is shifted out (do not build the huge\n                    # intermediate integer)\n                    o = 0\n", "", 'C05.D4'),
     ('mask-shift-nonstrict', 'miasmx/expression/expression_helper.py', "2**args[1].arg > args[0].args[1].arg", "2**args[1].arg >= args[0].args[1].arg", 'C05.D4'),
     ('slice-slice-base', 'miasmx/expression/expression_helper.py', "new_e = ExprSlice(e.arg.arg, e.start + e.arg.start, e.start + e.arg.start + (e.stop - e.start))", "new_e = ExprSlice(e.arg.arg, e.start + e.arg.start, e.arg.start + (e.stop - e.start))", 'C05.D4'),
     ('slice-compose-rebase', 'miasmx/expression/expression_helper.py', "new_e = a[0][e.start-a[1]:e.stop-a[1]]", "new_e = a[0][e.start:e.stop-a[1]]", 'C05.D4'),
